@@ -177,6 +177,9 @@ class BulkDrawComponentFactoryManager(IOperationBulkDrawComponentFactoryManager)
 
         # Group operations based on their type
         for operation in operations:
+            # Guard clause, an operation that occupies no channel has nothing to draw
+            if len(operation.channel_identifiers) == 0:
+                continue
             operation_type = type(operation)
             # Work around, grouping two-qubit operations
             if isinstance(operation, TwoQubitOperation):
